@@ -100,6 +100,11 @@ class ParserModel:
                 v = None
                 self.flag_closed.add(None)
             self.flag_writes.append((g, bb, kind, v))
+        # a boolean gate that is assigned a computed value can hold either boolean: the one it does not start with is the closed state
+        if self.flag_ty == "bool" and None in self.flag_closed and len(self.flag_open) == 1:
+            (o,) = self.flag_open
+            if o is not None and o[0] == "b":
+                self.flag_closed.add(("b", not o[1]))
 
     def flag_term(self, nv):
         if nv[0] == "b":
@@ -450,9 +455,14 @@ def trace_and_judge(ctx, r1, r2, only=None):
         for p in good:
             nexts = []
             vers = []
+            # the version values the path holds when the line has been accepted: a successful lookup they are derived from (a table searched
+            # with the token) is a recognition of the token, whatever its result type
+            hv_vals = [absint.deep(p.state, p.state.read_key((i,))) for i, l in enumerate(rd.locals) if l["ty"] == HV and p.state.read_key((i,))[0] != "init"]
             for bb, c in p.conds:
                 if not c:
                     continue
+                if c[0] == "variant" and c[2] in ("Some", "Ok") and c[3] and absint.head_call(c[3]) is not None and any(absint.mentions_call(v, absint.head_call(c[3])) for v in hv_vals):
+                    vers.append(True)
                 if c[0] == "variant" and c[2] in ("Some", "None"):
                     calls = absint.calls_in(c[3])
                     if calls and re.search(r"(Split\w*<.*> as std::iter::Iterator>::next|SplitWhitespace<.*> as std::iter::Iterator>::next|::split_once|::splitn)", calls[0][1] + " " + (calls[0][4] if len(calls[0]) > 4 else "")):
@@ -532,10 +542,19 @@ def str_model(token, case_sensitive_only=True):
         has_input = [absint.contains(v, INPUT) for v in vals]
         if any(has_input) and any(l is not None for l in lits):
             lit = [l for l in lits if l is not None][0]
+            # the input may have been case-folded on the way (`input.to_ascii_lowercase() == "chunked"`)
+            tok = token
+            for v, h in zip(vals, has_input):
+                if h:
+                    for x in absint.walk_terms(v):
+                        if x and x[0] == "call" and re.search(r"::to_(ascii_)?lowercase$", x[1]):
+                            tok = tok.lower()
+                        elif x and x[0] == "call" and re.search(r"::to_(ascii_)?uppercase$", x[1]):
+                            tok = tok.upper()
             if call_name(t).endswith("eq_ignore_ascii_case"):
-                r = lit.lower() == token.lower()
+                r = lit.lower() == tok.lower()
             else:
-                r = lit == token
+                r = lit == tok
             if call_name(t).endswith("::ne"):
                 r = not r
             return ("const", r, str(r).lower(), None)
@@ -550,7 +569,7 @@ def eval_str_fn(facts, fdef, token, extra_stop=None):
     st = symex.Sym(g)
     st.write_key((1,), INPUT)
     st.write_key((1, "*"), INPUT)
-    return g, [p for p in absint.explore(g, 0, st, on_call=str_model(token), max_paths=4000) if p.end[0] == "return"]
+    return g, [p for p in absint.explore(g, 0, st, on_call=absint.table_model(facts, str_model(token)), max_paths=4000) if p.end[0] == "return"]
 
 
 def unwrap_ok(v):
